@@ -65,3 +65,16 @@ package rules
 //@ iface Service.OnCreateAccount(self, ctx, metadata, req)
 //@ ensures [verdicts] result == APPROVED || result == DENIED || result == FAILED || result == UNKNOWN
 
+
+// ---- slashing-protection export/import (C10, C11) ----
+// The exported map has one record per public key that has any record; a field is -1 when there is no record of that
+// kind. Import writes, for every supplied key, each supplied kind (a field of -1 means "leave that kind alone").
+//@ iface Service.ExportSlashingProtection(self, ctx)
+//@ ensures [records] result1 == nil ==> result0 != nil && (forall k [48]byte :: k in result0 ==> result0[k] != nil && allocated(result0[k]) && result0[k].HighestProposedSlot == wmPropL(bytes(k)) && result0[k].HighestAttestedSourceEpoch == wmAttS(bytes(k)) && result0[k].HighestAttestedTargetEpoch == wmAttT(bytes(k)))
+//@ ensures [absent] result1 == nil ==> (forall k [48]byte :: !(k in result0) ==> wmPropL(bytes(k)) == 0 - 1 && wmAttS(bytes(k)) == 0 - 1 && wmAttT(bytes(k)) == 0 - 1)
+//@ iface Service.ImportSlashingProtection(self, ctx, protection)
+//@ requires [nonnil] forall k [48]byte :: k in protection ==> protection[k] != nil
+//@ modifies db
+//@ ensures [props] result == nil ==> (forall k [48]byte :: k in protection ==> wmPropL(bytes(k)) == (if protection[k].HighestProposedSlot != 0 - 1 then protection[k].HighestProposedSlot else old(wmPropL(bytes(k)))))
+//@ ensures [atts] result == nil ==> (forall k [48]byte :: k in protection ==> wmAttS(bytes(k)) == (if protection[k].HighestAttestedSourceEpoch != 0 - 1 then protection[k].HighestAttestedSourceEpoch else old(wmAttS(bytes(k)))) && wmAttT(bytes(k)) == (if protection[k].HighestAttestedSourceEpoch != 0 - 1 then protection[k].HighestAttestedTargetEpoch else old(wmAttT(bytes(k)))))
+//@ ensures [others] forall k [48]byte :: !(k in protection) ==> wmPropL(bytes(k)) == old(wmPropL(bytes(k))) && wmAttS(bytes(k)) == old(wmAttS(bytes(k))) && wmAttT(bytes(k)) == old(wmAttT(bytes(k)))
